@@ -132,9 +132,10 @@ HandleAdmit(s0, c, i, nw) ==
 (* Maintenance: applying one read record                                     *)
 
 ApplyRead(s, r) ==
-    \* (the hook cannot name the key of a read record: k is reported as -1)
+    \* (the hook names the key of a hit through the entry's access-order node, -1 if it has none;
+    \* a miss carries no key)
     IF ~r.hit THEN EmitMx(SketchIncrement(s, r.k), [t |-> "read.miss", k |-> -1])
-    ELSE LET s1 == EmitMx(SketchIncrement(s, r.k), [t |-> "read.hit", k |-> -1])
+    ELSE LET s1 == EmitMx(SketchIncrement(s, r.k), [t |-> "read.hit", k |-> IF InSeq(s.ao, r.i) THEN s.info[r.i].k ELSE -1])
              s2 == [s1 EXCEPT !.info[r.i].la =
                        IF "F6" \in Dev THEN r.ts ELSE Max(@, r.ts)]
          IN IF s2.info[r.i].adm THEN MoveBackAo(s2, r.i) ELSE s2
@@ -152,7 +153,8 @@ TrySkip(s, c, k) ==
               LET r == HandleRemove(EmitMx(s, [t |-> "release.stale", k |-> k]), c, Head(s.ao))
               IN <<r[1], TRUE, r[2]>>
          ELSE IF s.info[s.map[k].i].dirty
-         THEN LET s1 == IF s.map[k].i # Head(s.ao) THEN EmitMx(s, [t |-> "skip.stale", k |-> k]) ELSE s
+         THEN LET s0 == IF s.map[k].i # Head(s.ao) THEN EmitMx(s, [t |-> "skip.stale", k |-> k]) ELSE s
+                  s1 == EmitMx(s0, [t |-> "skip.dirty", k |-> k])
               IN <<MoveBackWo(MoveBackAo(s1, s.map[k].i), s.map[k].i), TRUE, c>>
          ELSE <<s, FALSE, c>>
     ELSE IF "F12" \in Dev
@@ -172,7 +174,7 @@ RmExpWo(s, c, n) ==
                  IN RmExpWo(r[1], r[2], n - 1)
             ELSE IF s.map[k].p
             THEN IF s.info[s.map[k].i].dirty
-                 THEN RmExpWo(MoveBackWo(MoveBackAo(s, s.map[k].i), s.map[k].i), c, n - 1)
+                 THEN RmExpWo(MoveBackWo(MoveBackAo(EmitMx(s, [t |-> "skip.dirty", k |-> k]), s.map[k].i), s.map[k].i), c, n - 1)
                  ELSE <<s, c>>
             ELSE IF "F12" \in Dev
                  THEN RmExpWo(EmitMx([s EXCEPT !.wo = FrontToBack(s.wo)], [t |-> "skip.absent", k |-> k]), c, n - 1)
